@@ -427,6 +427,9 @@ func (fx *FuncCtx) closeLoop(li *loopInfo, latch *State, cond string, from *ssa.
 	at.R = cond
 	for _, c := range spec.Hints {
 		// a lemma: proved here, then available to the obligations that follow
+		if henv := fx.clauseEnv(at, li.headSt, nil); !hintInScope(fx, henv, from, c) {
+			continue
+		}
 		t := fx.evalGoal(c, fx.clauseEnv(at, li.headSt, nil))
 		ob := fx.oblige(at, "hint", fmt.Sprintf("hint:loop%d.%s@b%d", li.ordinal, c.Label, from.Index), t, token.NoPos, false)
 		fx.tagClause(ob, c)
@@ -466,6 +469,9 @@ func (fx *FuncCtx) exitLoop(li *loopInfo, st *State, cond string) {
 	fx.exitN++
 	for _, c := range spec.Hints {
 		// the lemmas also hold (and are proved) on the edges that leave the loop mid-iteration
+		if henv := fx.clauseEnv(at, li.headSt, nil); !hintInScope(fx, henv, fx.curBlock, c) {
+			continue
+		}
 		t := fx.evalGoal(c, fx.clauseEnv(at, li.headSt, nil))
 		ob := fx.oblige(at, "hint", fmt.Sprintf("hint:loop%d.%s@exit%d", li.ordinal, c.Label, fx.exitN), t, token.NoPos, false)
 		fx.tagClause(ob, c)
@@ -1004,4 +1010,13 @@ func (fx *FuncCtx) rangeIndexFacts(li *loopInfo, st *State) {
 		return
 	}
 	fx.assume(st, fmt.Sprintf("(and (<= (- 1) %s) (or (< %s %s) (= %s (- 1))))", cell.T, cell.T, lenV.T, cell.T))
+}
+
+// hintInScope: a loop lemma that names a local which is not allocated on every path to
+// this edge does not apply here (old(...) sub-expressions are judged at the same block:
+// a local of an inner loop has no value at the header either way).
+func hintInScope(fx *FuncCtx, env *Env, at *ssa.BasicBlock, c *Clause) bool {
+	env.fn = fx.fn
+	env.at = at
+	return env.localsInScope(c.Expr)
 }
